@@ -363,7 +363,10 @@ Definition zinit (cfg : config) (d : disk) : option sys2 :=
    least its synced prefix and at most what was written (cut at any byte), possibly
    followed, from a record boundary on, by zeros up to the written length (size
    updated, data blocks lost). *)
-Definition whole_records (bs : bytes) : Prop := exists rs, bs = concat (map enc_record rs).
+(* a whole number of (decodable) records *)
+Definition whole_records (bs : bytes) : Prop :=
+  exists rs, bs = concat (map enc_record rs) /\
+             Forall (fun r => dec_record (enc_record r) = DOk (r, [])) rs.
 Definition file_image (f f' : file) : Prop :=
   f_id f' = f_id f /\
   exists n k : nat, (f_synced f <= N.of_nat n)%N /\ (n + k <= length (f_data f))%nat /\
